@@ -3,7 +3,8 @@
    below by the minimum and non-increasing.  Uses the Flocq bridge lemmas of SuppRtbFloatProofs.v. *)
 From Coq Require Import List ZArith NArith QArith Bool Floats Lia Reals Lra.
 From Flocq Require Import Core.
-From Crem Require Import Base.Res Dominance DominanceProofs SuppRtbFloat SuppRtbFloatProofs Suppapitnarm SuppapitnarmProofs.
+From Crem Require Import Base.Res Dominance DominanceProofs NdArchive NdArchiveProofs SuppRtbFloat SuppRtbFloatProofs
+  Suppapitnarm SuppapitnarmProofs.
 Import ListNotations.
 
 Section Schedule.
@@ -215,72 +216,58 @@ Qed.
 
 (* ---- totality: with CheckNonDominance off and vectors of one length, no iteration can panic ---- *)
 
-Lemma cannot_be_archived_total d a c :
-  Forall (wf_len d) a -> wf_len d c -> exists v, cannot_be_archived a c = Ok v.
-Proof.
-  intros Ha Hc. induction Ha as [|x a Hx Ha IH]; cbn [cannot_be_archived]; [eauto|].
-  destruct (dominates_total (e_vec x) (e_vec c)) as (b & E); [unfold wf_len in *; congruence|].
-  rewrite E. cbn. destruct b; [eauto|]. destruct (acts_eqb _ _); [eauto | exact IH].
-Qed.
+Lemma forall_wf_dim d a : Forall (wf_len d) a <-> dim_ok d a.
+Proof. unfold dim_ok, wf_len. rewrite Forall_forall. tauto. Qed.
 
-Lemma split_dominated_total d a c :
-  Forall (wf_len d) a -> wf_len d c -> exists r, split_dominated c a = Ok r.
+(* under one vector length the move rule is total, and it is C05's pure archive step [step_b]:
+   Offer, or OfferForce when the verdict is undesirable and the coolant accepts *)
+Lemma accept_phase_pure d s i :
+  dim_ok d (arch s) -> wf_len d (i_cand i) ->
+  let c := i_cand i in
+  let v := fst (attempt_b (arch s) c) in
+  let acc := decide (accept_prob (p_kind p) (i_es i)) (unitary (i_draw i)) in
+  let forced := negb (stored_or_held v) && acc in
+  let moves := stored_or_held v || acc in
+  exists s1,
+    accept_phase p s i =
+      Ok (v, (if stored_or_held v then AcceptDesirable else if acc then AcceptUndesirable else RevertUndesirable), s1)
+    /\ arch s1 = snd (step_b (arch s) (if forced then OfferForce c else Offer c))
+    /\ cur s1 = (if moves then c else cur s)
+    /\ dim_ok d (arch s1).
 Proof.
-  intros Ha Hc. induction Ha as [|x a Hx Ha (r & IH)]; cbn [split_dominated]; [eauto|].
-  destruct (dominates_total (e_vec c) (e_vec x)) as (b & E); [unfold wf_len in *; congruence|].
-  rewrite E, IH. cbn. destruct b; eauto.
-Qed.
-
-Lemma drop_dominating_total d a c :
-  Forall (wf_len d) a -> wf_len d c -> exists r, drop_dominating c a = Ok r.
-Proof.
-  intros Ha Hc. induction Ha as [|x a Hx Ha (r & IH)]; cbn [drop_dominating]; [eauto|].
-  destruct (dominates_total (e_vec x) (e_vec c)) as (b & E); [unfold wf_len in *; congruence|].
-  rewrite E, IH. cbn. destruct b; eauto.
-Qed.
-
-Lemma attempt_total d a c :
-  Forall (wf_len d) a -> wf_len d c -> exists v a', attempt a c = Ok (v, a').
-Proof.
-  intros Ha Hc. unfold attempt.
-  destruct (cannot_be_archived_total d a c Ha Hc) as (v & E). rewrite E. cbn.
-  destruct (split_dominated_total d a c Ha Hc) as (r & Er).
-  destruct v; try (eexists; eexists; reflexivity).
-  rewrite Er. cbn. destruct (fst r); eexists; eexists; reflexivity.
-Qed.
-
-Lemma forall_incl_app d (kept a : list entry) c :
-  incl kept a -> Forall (wf_len d) a -> wf_len d c -> Forall (wf_len d) (kept ++ [c]).
-Proof.
-  intros Hi Ha Hc. apply Forall_app. split.
-  - rewrite Forall_forall in *. intros x Hx. apply Ha, Hi, Hx.
-  - constructor; [exact Hc | constructor].
-Qed.
-
-Lemma attempt_outcome_wf d a c v a' :
-  attempt_outcome a c v a' -> Forall (wf_len d) a -> wf_len d c -> Forall (wf_len d) a'.
-Proof.
-  intros H Ha Hc. inversion H; subst; try assumption.
-  - apply (forall_incl_app d a a c); [apply incl_refl | assumption | assumption].
-  - eapply forall_incl_app; eassumption.
+  intros Ha Hc. cbv zeta. unfold accept_phase.
+  rewrite (attempt_link d) by assumption. cbn [res_bind].
+  pose proof (attempt_b_dim d _ _ Ha Hc) as Ha1.
+  destruct (scan_b_range (arch s) (i_cand i)) as [R|[R|R]].
+  - (* stored *)
+    rewrite (attempt_b_stored _ _ R) in *. cbn [fst snd] in *.
+    destruct (existsb _ _); cbn [change_desirable stored_or_held negb andb orb fst snd];
+      (eexists; split; [reflexivity|]; cbn [arch cur step_b]; rewrite (attempt_b_stored _ _ R);
+       cbn [fst snd]; repeat split; auto).
+  - (* dominated *)
+    rewrite attempt_b_refused in * by congruence. rewrite R in *. cbn [fst snd] in *.
+    cbn [change_desirable stored_or_held negb andb orb].
+    destruct (decide _ _) eqn:D.
+    + rewrite (force_link d) by assumption. cbn [res_bind fst snd force_b].
+      eexists. split; [reflexivity|]. cbn [arch cur step_b].
+      rewrite attempt_b_refused by congruence. rewrite R. cbn [fst snd force_b]. repeat split; auto.
+      apply (force_b_dim d); assumption.
+    + eexists. split; [reflexivity|]. cbn [arch cur step_b].
+      rewrite attempt_b_refused by congruence. rewrite R. cbn [fst snd]. repeat split; auto.
+  - (* duplicate *)
+    rewrite attempt_b_refused in * by congruence. rewrite R in *. cbn [fst snd] in *.
+    cbn [change_desirable stored_or_held negb andb orb].
+    eexists. split; [reflexivity|]. cbn [arch cur step_b].
+    rewrite attempt_b_refused by congruence. rewrite R. cbn [fst snd]. repeat split; auto.
 Qed.
 
 Lemma accept_phase_total d s i :
   Forall (wf_len d) (arch s) -> wf_len d (i_cand i) ->
   exists v dd s1, accept_phase p s i = Ok (v, dd, s1) /\ Forall (wf_len d) (arch s1).
 Proof.
-  intros Ha Hc.
-  destruct (attempt_total d _ _ Ha Hc) as (v & a1 & E).
-  pose proof (attempt_outcome_wf d _ _ _ _ (attempt_cases _ _ _ _ E) Ha Hc) as Ha1.
-  unfold accept_phase. rewrite E. cbn [res_bind fst snd].
-  destruct (change_desirable (desirable s) v).
-  - do 3 eexists. split; [reflexivity | exact Ha1].
-  - destruct (decide _ _).
-    + destruct (drop_dominating_total d a1 (i_cand i) Ha1 Hc) as (r & Er).
-      unfold force. rewrite Er. cbn [res_bind].
-      do 3 eexists. split; [reflexivity|]. cbn [arch].
-      eapply forall_incl_app; [eapply drop_dominating_incl; exact Er | exact Ha1 | exact Hc].
-    + do 3 eexists. split; [reflexivity | exact Ha1].
+  intros Ha Hc. apply forall_wf_dim in Ha.
+  destruct (accept_phase_pure d s i Ha Hc) as (s1 & E & _ & _ & Hd).
+  do 3 eexists. split; [exact E | apply forall_wf_dim; exact Hd].
 Qed.
 
 Lemma iteration_total d n s i :
